@@ -31,6 +31,7 @@ type stdSvc struct {
 	eps   []*labEP // every harness endpoint
 	tcpUA map[string]*labTCPConn
 	seq   int
+	primed bool
 }
 
 func (s *stdSvc) ip(d int) string { return s.in.ip(d) }
@@ -60,6 +61,8 @@ func newStdSvc(v stdVariant) (*stdSvc, error) {
 			{Dests: []string{"*.wudp.test"}, Protocol: "udp", NextHop: ip(24) + ":5070"},
 			{Dests: []string{"*.wtcp.test"}, Protocol: "tcp", NextHop: ip(24) + ":5070"},
 			{Dests: []string{"*.wtls.test"}, Protocol: "TLS", NextHop: ip(24) + ":5070"},
+			// a literal listed after a wildcard that covers it: the literal must still win
+			{Dests: []string{"lit.wudp.test"}, Protocol: "udp", NextHop: ip(22) + ":5070"},
 		},
 		Hosts: [][2]string{
 			{"proxy-a.test", ip(1)}, {"proxy-b.test", ip(2)}, {"proxy-c.test", ip(3)},
@@ -198,3 +201,22 @@ func matchHop(r labRx, h mHop) bool {
 	}
 	return r.tcp == nil
 }
+
+// c03OwnRoute: a Route entry that designates listener transport L (by address,
+// by alias, or by alias without port when L is on 5060).
+func c03OwnRoute(rt *rapid.T, s *stdSvc, L *mTransport) ANameAddr {
+	u := AURI{Scheme: "sip", Host: L.Addr, Port: L.Port, Params: []AParam{{K: "lr"}}}
+	switch rapid.IntRange(0, 2).Draw(rt, "ownform") {
+	case 1:
+		u.Host = []string{"proxy-a.test", "proxy-b.test", "proxy-c.test"}[L.Entry]
+	case 2:
+		if L.Port == 5060 {
+			u.Port = 0
+		}
+	}
+	if rapid.Bool().Draw(rt, "ownuser") {
+		u.User = gWord(rt, "ownuserv")
+	}
+	return ANameAddr{URI: u}
+}
+
